@@ -121,6 +121,10 @@ def check(ctx, rep):
                         continue
                     nw += 1
                     locked = any(l[1] == ("attr", t[1], lockf) for l in e.locks)
+                    if not locked:
+                        # a helper that is only ever called with that future's lock held
+                        cs = ctx.callgraph().get(fi.key, set())
+                        locked = bool(cs) and all(_store_locked_in_caller(ctx, fi, ck, cik, t[2], lockf) for ck, cik in cs)
                     rep.ob("R-TESTUSE", "%s: write of %s.%s under that future's lock" % (fi.qualname, bc.name, t[2]), locked,
                            "%s is tested and then used under the future's lock elsewhere (check-then-act), but is written here without it: a cancel() between the test and the use sees None" % t[2], where_of(fi, e.node), trace_of(p, e.seq))
     rep.count("writes of test-then-use fields", nw, 4)
@@ -362,6 +366,22 @@ def addcb_rule(ctx, rep):
 
 
 
+def _store_locked_in_caller(ctx, fi, ck, cik, field, lockf):
+    """in the caller (ck, cik), with fi inlined: every store fi makes to <x>.<field> happens with <x>.<lockf> held"""
+    cfi = ctx.prog.functions[ck]
+    cci = ctx.prog.classes.get(cik) if cik else None
+    ps, it = ctx.paths(cfi, cci, depth=1, inline=lambda callee, ev, path: callee is fi)
+    seen = False
+    for p in ps:
+        for e in p.evs("store"):
+            t = e.d["target"]
+            if e.fn is fi and t[0] == "attr" and t[2] == field:
+                seen = True
+                if not any(l[1] == ("attr", t[1], lockf) for l in e.locks):
+                    return False
+    return seen
+
+
 def reentry_rule(ctx, rep):
     """cancel() asks the subclass hook, which cancels the delegate, whose done-callbacks run at once and come back
     into this same future through the 'my delegate was cancelled' entry.  That entry must do nothing while cancel()
@@ -384,6 +404,17 @@ def reentry_rule(ctx, rep):
         if inprog:
             eff = [e for e in p.calls() if q.is_super_call(e, "cancel") or (e.d["callee"] is not None and roles.is_dispatch(e.d["callee"]))]
             rep.ob("R-REENTRY", "%s: no effect while cancel() is in progress" % m.qualname, not eff, "with the cancelling flag set the entry still cancels / dispatches: cancel() (which is waiting for its hook to return) then finds the future cancelled and notified already and raises RuntimeError('Future in unexpected state')", where_of(m), trace_of(p))
+    # the flag belongs to the future's lock: cancel() raises and lowers it with the lock held (possibly on another
+    # thread, where the request may still be refused), so it means "my own cancel() is in progress" only to a
+    # reader that holds the lock too
+    for p in ps:
+        for b in p.evs("branch"):
+            t = b.d[0]
+            while isinstance(t, tuple) and t and t[0] == "not":
+                t = t[1]
+            hit = [f for f in flags if t == ("attr", SELF, f) or (isinstance(t, tuple) and contains(t, ("attr", SELF, f)))]
+            if hit and b.fn is m:
+                rep.ob("R-REENTRY", "%s reads the cancelling flag under the future's lock" % m.qualname, q.has_lock(b, P.LOCK), "self.%s is tested without self.%s: a cancel() running on another thread (which may yet be refused by the subclass) makes this entry give up, and if that cancel() is refused nobody ever resolves the future whose delegate was cancelled" % (hit[0], P.lock), where_of(m, b.node), trace_of(p, b.seq))
     rep.ob("R-REENTRY", "%s looks at the cancelling flag" % m.qualname, tested and bool(flags), "the entry never tests the flag cancel() raises around its hook (%s): a delegate cancelled by our own cancel() re-enters here and cancels the future a second time" % sorted(flags), where_of(m))
 
 
